@@ -208,6 +208,8 @@ def register(reg):
         """res[q] == (None placeholder if nl[q] is None else RES(nl[q])) for q < i, and len(res) == i"""
         nl = unwrap(it, nl)
         hi = nl.length if i is None else i
+        if not isinstance(res, PyList):
+            return False        # None (or anything else) where the list of the children's results is due
         if isinstance(res, PyList) and res.items is not None:
             if not (isinstance(hi, int) or z3.is_int_value(simp(zint(hi)))) :
                 return V.z_and(V.z_eq(len(res.items), hi), len(res.items) == 0)
